@@ -279,6 +279,7 @@ def configs(tier):
     # Assembly._update_peak_pin_temps (shared with C15), whose stored profile is what _get_peak_dt takes its rises from
     from . import c15
     out.append((c15.pins, dict(n_pin=2, n_keys=2)))
+    out.append((c15.step_glue, dict()))         # ... and that profile is recorded from THIS step's pin temperatures
     if tier == 'thorough':
         out += [(temps, dict(n_asm=2, n_dir=3, n_stat=2, n_term=5)), (peak_dt, dict(value='clad_id')),
                 (peak_dt, dict(value='fuel_od')), (peak_dt, dict(value='clad_od'))]
